@@ -283,6 +283,11 @@ def gen_patch(rng, model, params, world_labels, ids, allow_cf=True, in_data=Fals
             lines.append({"v": "nop"})
         elif allow_cf and r < 0.9:
             kind = rng.choice(["jmp", "jcc", "call", "ret", "ijmp", "icall", "jcc", "call"])
+            # a patch holds a ret or a direct call, not both (return edges
+            # between a patch's own call and its own ret are not specified)
+            have = {l.get("v") for l in lines if "v" in l}
+            if (kind == "ret" and "call" in have) or (kind == "call" and "ret" in have):
+                kind = "jcc"
             it = {"v": kind}
             if kind in ("jmp", "jcc", "call"):
                 choices = []
@@ -379,31 +384,43 @@ def shape_ok(model, sd, params):
 
     m = model.clone()
     isa = params["_isa"]
+
+    def rule1(mm):
+        """nothing falls off the end of code"""
+        for sname in mm.section_order:
+            seq = [t for u in mm.sections[sname] for t in u.toks if t.is_bytes()]
+            for a, b in zip(seq, seq[1:] + [None]):
+                if a.kind == "insn" and a.ikind not in NO_FALLTHROUGH and a.ikind not in ("ret", "pad"):
+                    if b is None or b.kind != "insn":
+                        return False
+        return True
+
     try:
         mods = []
         for oi, op in enumerate(sd["ops"]):
             key, off, length = driver.resolve_op(m, op)
-            mods.append((key, off, oi, op, length))
+            sp = m.spans[key]
+            mods.append(((m.section_order.index(sp.sect), m.sections[sp.sect].index(sp.unit), sp.start), off, oi, op, length, key))
         mods.sort(key=lambda x: (x[0], x[1], x[2]))
-        for key, off, oi, op, length in mods:
+        for _, off, oi, op, length, key in mods:
             if op["k"] in ("del", "delblock"):
                 m.delete(key, off, length, proxy=bool(op.get("proxy")))
             else:
                 if length:
                     m.delete(key, off, length, replacing=True)
                 m.insert(key, off, patch_shape_tokens(op["patch"], isa), replace_len=length)
+            # the rule must hold after every step: the engine applies the
+            # modifications one after the other
+            if not rule1(m):
+                return False
     except Exception:
         return False
-    # rule 1: nothing falls off the end of code
     targets = set()
     for sname in m.section_order:
-        seq = [t for u in m.sections[sname] for t in u.toks if t.is_bytes()]
-        for a, b in zip(seq, seq[1:] + [None]):
-            if a.kind == "insn" and a.ikind not in NO_FALLTHROUGH and a.ikind != "ret":
-                if b is None or b.kind != "insn":
-                    return False
-            if a.kind == "insn" and a.ikind in ("jmp", "jcc", "call") and a.target:
-                targets.add(a.target)
+        for u in m.sections[sname]:
+            for a in u.toks:
+                if a.kind == "insn" and a.ikind in ("jmp", "jcc", "call") and a.target:
+                    targets.add(a.target)
     # rule 2: control-flow targets label code
     for sname in m.section_order:
         for u in m.sections[sname]:
@@ -430,6 +447,10 @@ def _gen_session(rng, model, params, index):
     # of the two an insertion at offset 0 follows is not specified)
     zero_at = {(id(sp.unit), sp.start) for lst in model.span_list.values() for sp in lst if sp.size == 0}
     spans = [sp for lst in model.span_list.values() for sp in lst if sp.size > 0 and (id(sp.unit), sp.start) not in zero_at]
+    # alignment padding created by the library is left alone (it is not
+    # part of the program text the properties speak about)
+    padtoks = {t.id for _, u in model.units() for t in u.toks if t.origin == "pad"}
+    spans = [sp for sp in spans if not (set(sp.tok_ids) & padtoks)]
     if not spans or rng.random() < params.get("empty_session_p", 0.05):
         return {"ops": [], "reg_order": []}
     nspans = min(len(spans), rng.choices([1, 2, 3, 4, 6], weights=[30, 30, 20, 10, 10])[0])
@@ -538,5 +559,14 @@ def _avoid_ambiguous(model, ops):
         if nxt_proxy:
             # no edits at the end of the predecessor of a proxied block
             for oi in lst:
+                ops[oi]["_drop"] = True
+    # a block deleted with retarget_to_proxy that calls itself: whether the
+    # function still 'has a caller' afterwards is not specified
+    toks = {t.id: t for _, u in model.units() for t in u.toks}
+    for oi, (key, off, length) in loc.items():
+        if ops[oi]["k"] == "delblock" and ops[oi].get("proxy"):
+            sp = model.spans[key]
+            own = {t.name for _, u in model.units() for t in u.toks if t.kind == "label" and t.att is sp}
+            if any(toks[tid].ikind == "call" and toks[tid].target in own for tid in sp.tok_ids if tid in toks):
                 ops[oi]["_drop"] = True
     ops[:] = [op for op in ops if not op.pop("_drop", False)]
